@@ -16,13 +16,26 @@ class AnalysisError(Exception):
     """The analyser cannot decide (vanished anchor, unknown idiom, ...)."""
 
 
+class _ConstRight(ast.NodeTransformer):
+    """`0 <= v` is `v >= 0`: a comparison with a literal on the left is read with the literal on the right (one orientation for
+    the rules that look at comparison text; the package itself writes literals on the right throughout)."""
+    FLIP = {ast.Eq: ast.Eq, ast.NotEq: ast.NotEq, ast.Lt: ast.Gt, ast.Gt: ast.Lt, ast.LtE: ast.GtE, ast.GtE: ast.LtE}
+
+    def visit_Compare(self, node):
+        self.generic_visit(node)
+        if len(node.ops) == 1 and type(node.ops[0]) in self.FLIP and isinstance(node.left, ast.Constant) and \
+                not isinstance(node.comparators[0], ast.Constant):
+            return ast.copy_location(ast.Compare(left=node.comparators[0], ops=[self.FLIP[type(node.ops[0])]()], comparators=[node.left]), node)
+        return node
+
+
 class Module(object):
     def __init__(self, name, relpath, source, is_pkg):
         self.name = name
         self.relpath = relpath
         self.source = source
         self.is_pkg = is_pkg
-        self.tree = ast.parse(source, filename=relpath)
+        self.tree = _ConstRight().visit(ast.parse(source, filename=relpath))
         self.sha = hashlib.sha256(source.encode('utf8')).hexdigest()[:16]
         self.imports = {}     # local name -> dotted target
         self.defs = {}        # top-level name -> node (last definition wins)
